@@ -6,13 +6,14 @@ import (
 	"math/rand"
 	"strings"
 	"time"
+	"verif/harness/cbsim"
 
 	"verif/harness/drv"
 )
 
 // C13 — graceful shutdown is clean from every lifecycle state.
 
-var c13States = []string{"hc-retrying", "rm-waiting", "idle", "consumer-blocked", "save-held", "save-failing", "reb-in-BSS", "reb-after-ASS", "reb-in-delay", "reb-in-BSStart", "reb-after-ARE", "mid-traffic"}
+var c13States = []string{"hc-retrying", "rm-waiting", "idle", "consumer-blocked", "save-held", "save-failing", "reb-in-BSS", "reb-after-ASS", "reb-in-delay", "reb-in-BSStart", "reb-after-ARE", "mid-traffic", "end-during-close", "notify-during-close"}
 
 type c13Cfg struct {
 	RM, HC, API, Auto bool
@@ -68,6 +69,19 @@ func c13Spec(rng *rand.Rand, state string, c c13Cfg) *SessSpec {
 			sp.FailSaves = append(sp.FailSaves, i)
 		}
 		sp.Steps = append(sp.Steps, app(), Step{Op: "barrier"}, Step{Op: "ack", Sel: "all"})
+	case "end-during-close":
+		// the server ends a vBucket stream with a recoverable status (state changed, too slow, ...) while Close() is running
+		// (held inside BeforeStreamStop): the shutdown must not re-open it
+		vb := rng.Intn(sp.NumVB)
+		sp.Steps = append(sp.Steps, Step{Op: "holdeh", Sel: "BSS"}, Step{Op: "closeasync"}, Step{Op: "waitheld", Sel: "BSS"}, Step{Op: "end", VB: vb, St: transientStatus[rng.Intn(4)]}, Step{Op: "sleep", Ms: 60}, Step{Op: "releaseeh"})
+	case "notify-during-close":
+		// a membership change is announced (PUT /membership/info) while Close() is closing the streams: the client has left
+		// the group's business, no rebalance may start
+		sp.Membership = "dynamic"
+		sp.API = true
+		h := []string{"BSS", "ASS"}[rng.Intn(2)]
+		sp.Steps = append(sp.Steps, Step{Op: "holdeh", Sel: h}, Step{Op: "closeasync"}, Step{Op: "waitheld", Sel: h},
+			Step{Op: "notify", Sel: "put", N: 1, VB: 2, Ms: 1}, Step{Op: "sleep", Ms: 80}, Step{Op: "releaseeh"})
 	case "reb-in-BSS":
 		sp.Steps = append(sp.Steps, Step{Op: "holdeh", Sel: "BSS"}, reb, Step{Op: "waitheld", Sel: "BSS"}, Step{Op: "closeasync"}, Step{Op: "sleep", Ms: 30}, Step{Op: "releaseeh"})
 	case "reb-after-ASS":
@@ -146,6 +160,28 @@ func oracleShutdown(tr *Trace, state string) []Finding {
 		}
 		if late > 0 {
 			fs = append(fs, Finding{"C13", "healthcheck-not-stopped", "C13/healthcheck-retrying-after-close", fmt.Sprintf("Close() arrived inside a failing health-check round: %d retry ping(s) were still issued >= 0.95 s after the Close() call", late)})
+		}
+	}
+	// nothing is (re)started once Close() was called: no stream request, no rebalance
+	if state == "end-during-close" || state == "notify-during-close" {
+		var closeT int64
+		for _, r := range tr.Log {
+			if r.K == "ctl.close.call" && closeT == 0 {
+				closeT = r.T
+			}
+		}
+		for _, r := range tr.Log {
+			if closeT == 0 || r.T < closeT {
+				continue
+			}
+			if r.K == "sim.rx" && r.Op == cbsim.OpDcpStreamReq {
+				fs = append(fs, Finding{"C13", "restart-after-close", "C13/stream-request-after-close", fmt.Sprintf("state %q: a stream request for vb %d reached the cluster (tick %d) after Close() had been called (tick %d)", state, r.VB, r.T, closeT)})
+				break
+			}
+			if r.K == "eh.BRS" {
+				fs = append(fs, Finding{"C13", "restart-after-close", "C13/rebalance-after-close", fmt.Sprintf("state %q: a rebalance started (BeforeRebalanceStart at tick %d) after Close() had been called (tick %d)", state, r.T, closeT)})
+				break
+			}
 		}
 	}
 	if p.DeliverAfter > 0 {
